@@ -219,7 +219,7 @@ def make_case(ctx, g):
     w = World()
     fails = []
     flags = set()
-    b = DocBuilder(g, w, repeat_id=0.3, malformed=0.0, clash=0.35, defaults=0.5)
+    b = DocBuilder(g, w, repeat_id=0.3, malformed=0.0, clash=0.35, defaults=0.5, foreign_formal=0.08)
     docs = []
     for _ in range(2):
         d, _scopes = b.random_document(n_records=g.rng.randint(1, 5))
